@@ -60,6 +60,9 @@ type world struct {
 
 	lockWrap func(locker.Service) locker.Service
 	noCache  bool
+	trace    []string
+	cops     []cop
+	parks    []*park
 }
 
 var (
@@ -127,6 +130,8 @@ func (w *world) config(f []string) bool {
 		w.adminIPs = append(w.adminIPs, unhexStr(f[1]))
 	case "raw":
 		w.raws = append(w.raws, [2][]byte{unhex(f[1]), unhex(f[2])})
+	case "locktrace":
+		w.enableTrace()
 	case "legacyregex":
 		// model-side switch only
 	default:
